@@ -495,4 +495,61 @@ def Val.eval (x : Label → Rat) : Val → Rat
   | .mdl m => m.eval x
   | .view _ m => m.eval x
 
+/-! ## comparisons (`dimod.sym`): `model <= number` etc. build `Le/Ge/Eq(lhs=model, rhs=number)` -/
+
+inductive Sense where
+  | le | ge | eq
+deriving DecidableEq
+
+/-- a `Comparison` object: the left-hand side is the model itself (offset included, nothing is moved),
+    the right-hand side the number -/
+structure Cmp where
+  lhs : Model
+  sense : Sense
+  rhs : Rat
+
+/-- the six ways to write a comparison between an expression and a number -/
+inductive SymCmp where
+  | le (e : SymExpr) (q : Rat)     -- e <= q
+  | ge (e : SymExpr) (q : Rat)     -- e >= q
+  | eq (e : SymExpr) (q : Rat)     -- e == q
+  | rle (q : Rat) (e : SymExpr)    -- q <= e   (reflected: `e.__ge__(q)`)
+  | rge (q : Rat) (e : SymExpr)    -- q >= e   (reflected: `e.__le__(q)`)
+  | req (q : Rat) (e : SymExpr)    -- q == e
+
+def SymCmp.expr : SymCmp → SymExpr
+  | .le e _ => e | .ge e _ => e | .eq e _ => e | .rle _ e => e | .rge _ e => e | .req _ e => e
+def SymCmp.num : SymCmp → Rat
+  | .le _ q => q | .ge _ q => q | .eq _ q => q | .rle q _ => q | .rge q _ => q | .req q _ => q
+/-- `__le__`/`__ge__`/`__eq__` of the model, after Python's reflection -/
+def SymCmp.sense : SymCmp → Sense
+  | .le _ _ => .le | .ge _ _ => .ge | .eq _ _ => .eq | .rle _ _ => .ge | .rge _ _ => .le | .req _ _ => .eq
+def SymCmp.isEq : SymCmp → Bool
+  | .eq _ _ => true | .req _ _ => true | _ => false
+
+/-- `none` = Python returned a plain bool (number vs number; `view == number` falls back on identity);
+    expression views define no ordering → TypeError -/
+def buildCmp (c : SymCmp) : Except Err (Option Cmp) :=
+  match build c.expr with
+  | .error e => .error e
+  | .ok (.mdl m) => .ok (some ⟨m, c.sense, c.num⟩)
+  | .ok (.num _) => .ok none
+  | .ok (.view _ _) => if c.isEq then .ok none else .error .type
+
+/-- what the written comparison means on numbers -/
+def SymCmp.holds (c : SymCmp) (x : Label → Rat) : Prop :=
+  match c with
+  | .le e q => e.eval x ≤ q
+  | .ge e q => e.eval x ≥ q
+  | .eq e q => e.eval x = q
+  | .rle q e => q ≤ e.eval x
+  | .rge q e => q ≥ e.eval x
+  | .req q e => q = e.eval x
+
+def Cmp.holds (k : Cmp) (x : Label → Rat) : Prop :=
+  match k.sense with
+  | .le => k.lhs.eval x ≤ k.rhs
+  | .ge => k.lhs.eval x ≥ k.rhs
+  | .eq => k.lhs.eval x = k.rhs
+
 end Sym
